@@ -618,6 +618,14 @@ class Machine:
             return 1
         if pred in ("uno", "false"):
             return 0
+        # a concrete infinity against a symbolic (finite real) value: decided without the solver
+        for x, y, flip in ((a, b, False), (b, a, True)):
+            if isinstance(x, float) and math.isinf(x) and not isinstance(y, float):
+                big = x > 0
+                p = pred[1:]
+                if flip:
+                    p = {"gt": "lt", "ge": "le", "lt": "gt", "le": "ge"}.get(p, p)
+                return int({"eq": False, "ne": True, "gt": big, "ge": big, "lt": not big, "le": not big}[p])
         a = self.lift(a)
         b = self.lift(b)
         if a.op == "const" and b.op == "const":
